@@ -54,7 +54,7 @@ KNOWN = [
     dict(id="C03-hardlink-to-group", match="lists [], expected",
          case={"sb": 2, "ops": [{"op": "mkgroup", "path": "/g"}, {"op": "mkds", "path": "/g/d", "dtype": "int32", "dims": [1]},
                                 {"op": "hardlink", "path": "/h", "target": "/g"}]}),
-    dict(id="C03-soft-link-kind", match="unexpected paths after reopen",
+    dict(id="C03-soft-link", match="unexpected paths after reopen",
          case={"sb": 2, "ops": [{"op": "mkds", "path": "/d", "dtype": "int32", "dims": [1]}, {"op": "softlink", "path": "/s", "target": "/d"}]}),
 ]
 
